@@ -112,6 +112,9 @@ class Session:
             return _TRANSFER
         self.ex.hooks[FP + '.ParseJSONFloatPrefix'] = redirect
 
+    def no_float_overflow(self):
+        self.ex.hooks[RJSON + '.vNumOverflows'] = lambda ex, st, fr, ins, a: False
+
     def _numvalue(self, ex, st, fr, ins, args):
         cells = ex.slice_cells(st, args[0])
         return ('D', ('NUM', tuple(cells)))
